@@ -19,7 +19,7 @@ DEFAULT = dict(
     RogueHandshake=False, PartialFrames=False,
     Intervals=set(),
     Fire=False, Close=True, Erase=False, IdOps=False, Crash=False, Garbage=False, BadFrames=set(),
-    SendWhileDisc=False, PeerWhileDisc=False, LateFrames=False, CrossVersion=False, Restore=False, Regulate_=False, OptFlips=set(), FreeIdSends=False, Msgs={"m1"},
+    SendWhileDisc=False, PeerWhileDisc=False, LateFrames=False, CrossVersion=False, Restore=False, Regulate_=False, OptFlips=set(), FreeIdSends=False, LateSends=False, Msgs={"m1"},
     # not TLC constants:
     invariants=[],
 )
@@ -137,6 +137,12 @@ SLICES = {
                    AppKinds={"publish", "puback", "pubrec", "pubrel", "pubcomp", "subscribe", "suback", "unsubscribe", "unsuback",
                              "pingreq", "pingresp", "disconnect", "auth"},
                    QosSet={0, 1}, Cleans={True}, SendWhileDisc=True, MaxConns=1, MaxHeld=1, MaxUsed=1, Close=False, CrossVersion=True),
+    # the application keeps sending between the refusing CONNACK / DISCONNECT (close requested) and notify_closed
+    "gate_late": dict(Roles={"server", "any"}, Vers={"v311", "v50"}, AppKinds={"publish", "pingresp", "auth", "puback", "disconnect"},
+                      QosSet={0, 1}, Cleans={False}, ConnSEIs={10}, ConnackRcs={0, 135}, LateSends=True, MaxConns=1, MaxHeld=1, MaxUsed=1, Close=True),
+    # a second CONNACK on an established connection that holds stored packets (claims a resumed session / refuses)
+    "rogue_stored": dict(Vers={"v311", "v50"}, AppKinds={"publish"}, PeerKinds={"puback"}, QosSet={1}, Cleans={False}, ConnSEIs={10},
+                         SPs={True, False}, RogueHandshake=True, MaxConns=1, MaxHeld=1, MaxUsed=1),
     # receive gate matrix and version auto-detection (C17)
     "rgate": dict(Roles={"client", "server", "any"}, Vers={"v311", "v50", "undet"},
                   PeerKinds={"publish", "puback", "pubrec", "pubrel", "pubcomp", "subscribe", "suback", "unsubscribe", "unsuback",
@@ -182,13 +188,13 @@ SLICES = {
                       Cleans={False}, SPs={True}, ConnSEIs={10}, AckRMs={NA, 2}, Rcs={0, 128}, Crash=True, Close=False),
     # three exchanges in flight, acknowledged out of order, then the export / crash
     "crash_order": dict(Roles={"client"}, Vers={"v311"}, AppKinds={"publish"}, PeerKinds={"puback"}, QosSet={1}, MaxConns=2,
-                        Cleans={False}, SPs={True}, MaxUsed=3, MaxHeld=1, Crash=True, Close=False),
+                        Cleans={False}, SPs={True}, MaxUsed=3, MaxHeld=1, Crash=True, Close=False, Erase=True),
     # an export - also a malformed one - restored into a fresh object, then the session is resumed
     "restore_bad": dict(Roles={"client"}, Vers={"v311", "v50"}, AppKinds={"publish"}, PeerKinds={"puback", "pubrec", "pubcomp"}, QosSet={1},
                         OptSets=[set(), {"auto_pub"}], MaxConns=1, Cleans={False}, SPs={True, False}, ConnSEIs={10}, ExtraPids={1, 2},
                         MaxHeld=1, MaxUsed=3, Restore=True),
     "crash_in": dict(Roles={"client", "server"}, Vers={"v311", "v50"}, AppKinds={"pubrec", "pubcomp"}, PeerKinds={"publish", "pubrel"},
-                     QosSet={2}, InPids={1, 2}, MaxConns=2, Cleans={False}, SPs={True}, ConnSEIs={10}, Crash=True, Close=False, MaxHeld=0,
+                     QosSet={2}, InPids={1, 2}, MaxConns=2, Cleans={False}, SPs={True}, ConnSEIs={NA, 10}, Crash=True, Close=False, MaxHeld=0,
                      OptSets=[set(), {"auto_pub"}]),
 }
 
